@@ -460,6 +460,7 @@ class Ctx:
         g = desc.get("gsc", {})
         self.zero_step_cap = {"melimit": g.get("n", 0) + 2, "nononroot": g.get("n", 0) + 8}.get(g.get("k"), 6)
         self._last_progress = -1
+        self.step_cap = 120
         self.trace = deque(maxlen=250)
         self.violations: list = []
         self.cov = Counter()
@@ -519,6 +520,8 @@ class Ctx:
         else:
             self.zero_steps = 0
         self._last_progress = progress
+        if self.step >= self.step_cap:
+            raise WatchdogAbort("step cap")
         if self.zero_steps >= self.zero_step_cap:
             any_active = any(d.is_active for lvl in tree.levels for d in lvl)
             raise WatchdogAbort("stall:active" if any_active else "idle:no-active-deme")
